@@ -422,6 +422,11 @@ impl SchedHooks for Sched {
 
     fn wait_until(&self, name: &'static str, ready: &dyn Fn() -> bool) {
         let Some(tid) = Self::my_tid() else { return };
+        // Uncontended: the call that follows completes at once and no other thread can
+        // run in between, so this is not a decision point.
+        if ready() && self.is_controlled() {
+            return;
+        }
         loop {
             if self.is_controlled() {
                 // SAFETY: see `enabled`; the pointer is removed in `park` before it returns.
